@@ -128,6 +128,7 @@ def gen_ops(st, prog, g, rl_field, sa, tier):
                      all(isinstance(x, str) for x in q)]
     n_parties = rng.choice([1, 2, 2, 3])
     ops = []
+    rl_len = {}
     for p in range(n_parties):
         ops.append({"op": "new", "cls": top})
         ops.append({"op": "seed", "p": p, "k": st.lib.randint(0, 1 << 30)})
@@ -145,10 +146,25 @@ def gen_ops(st, prog, g, rl_field, sa, tier):
             if rng.random() < 0.7:
                 ops.append({"op": "assign", "p": p, "path": path, "v": gi.in_range_value(f)})
         elif r < 0.42 and rl_field is not None:
-            act = rng.choice(["clear", "append", "append", "extend"])
+            act = rng.choice(["clear", "append", "append", "extend", "replace"])
             f = rl_field
             items = []
-            for _i in range(1 if act != "extend" else 2):
+            n_old = rl_len.get(p, 1)
+            if act == "replace" and n_old == 0:
+                act = "append"
+            if act == "replace":
+                # same number of entries, other content: a memo keyed by the shape of the
+                # rangelist must not survive this (seeded r4-C03-in-expansion-memo)
+                ops.append({"op": "rl", "p": p, "name": "rl0", "act": "clear", "items": []})
+                act, n_new = "extend", n_old
+                rl_len[p] = n_old
+            elif act == "clear":
+                n_new = 1
+                rl_len[p] = 0
+            else:
+                n_new = 1 if act != "extend" else 2
+                rl_len[p] = n_old + n_new
+            for _i in range(n_new):
                 a = gi.small_literal(f, "S" if f["s"] else "U")
                 if rng.random() < 0.5:
                     b = gi.small_literal(f, "S" if f["s"] else "U")
